@@ -309,3 +309,42 @@ BENIGN = [
         (H, "        heap_log!(ALLOCATE -> self.log, self.size);\n        let index = HeapIndex::from(self.memory.len());",
             "        let index = HeapIndex::from(self.memory.len());\n        heap_log!(ALLOCATE -> self.log, self.size);")]),
 ]
+
+BENIGN += [
+    dict(id="B09", props=["C01", "C02", "C13", "C12"], what="literal arms share a helper", edits=[
+        (C, "            AST::Null => {\n                let constant = ProgramObject::Null;\n                let index = program.constant_pool.register(constant);\n                active_buffer.emit(OpCode::Literal { index });\n                active_buffer.emit_unless(OpCode::Drop, keep_result);\n            }",
+            "            AST::Null => {\n                emit_literal(program, active_buffer, ProgramObject::Null, keep_result);\n            }"),
+        (C, "fn compile_function_definition(name: &str,", "fn emit_literal(program: &mut ProgramGenerator, buffer: &mut Code, constant: ProgramObject, keep: bool) {\n    let index = program.constant_pool.register(constant);\n    buffer.emit(OpCode::Literal { index });\n    if !keep { buffer.emit(OpCode::Drop); }\n}\n\nfn compile_function_definition(name: &str,")]),
+    dict(id="B10", props=["C05", "C10", "C14"], what="eval_get_field pops before looking up the name", edits=[
+        (I, "    let program_object = program.constant_pool.get(index)?;\n    let name = program_object.as_str()?;\n    let pointer = state.operand_stack.pop()?;\n    let heap_pointer = pointer.into_heap_reference()?;\n    let object = state.heap.dereference(&heap_pointer)?;\n",
+            "    let pointer = state.operand_stack.pop()?;\n    let program_object = program.constant_pool.get(index)?;\n    let name = program_object.as_str()?;\n    let heap_pointer = pointer.into_heap_reference()?;\n    let object = state.heap.dereference(&heap_pointer)?;\n")]),
+    dict(id="B11", props=["C03", "C04", "C08"], what="ConstantPool::serialize with a for loop", edits=[
+        (P, "        self.0.iter()\n            .map(|program_object| program_object.serialize(sink, code))\n            .collect()\n    }",
+            "        for program_object in self.0.iter() {\n            program_object.serialize(sink, code)?;\n        }\n        Ok(())\n    }")]),
+    dict(id="B12", props=["C17"], what="Display for OpCode::Array via write_str", edits=[
+        (B, "            OpCode::Array =>\n                write!(f, \"array\"),", "            OpCode::Array =>\n                f.write_str(\"array\"),")]),
+    dict(id="B13", props=["C15", "C11"], what="object fields sorted with sort_by on the name", edits=[
+        (H, "        sorted_fields.sort_by_key(|(name, _)| *name);", "        sorted_fields.sort_by(|a, b| a.0.cmp(b.0));")]),
+    dict(id="B14", props=["C16", "C11"], what="allocate binds the object size first", edits=[
+        (H, "        self.size += object.size();\n", "        let bytes = object.size();\n        self.size += bytes;\n")]),
+    dict(id="B17", props=["C04", "C08", "C06"], what="rename the sink local of the compile action", edits=[
+        (M, "        let mut sink = self.selected_output()\n            .expect(\"Cannot open an output for the compiler.\");", "        let mut out = self.selected_output()\n            .expect(\"Cannot open an output for the compiler.\");"),
+        (M, "        output_serializer.serialize(&program, &mut sink)", "        output_serializer.serialize(&program, &mut out)")]),
+    dict(id="B18", props=["C01", "C10"], what="rename locals in RunAction::run", edits=[
+        (M, "        let ast: AST = TopLevelParser::new()\n            .parse(&source.into_string()\n            .expect(\"Error reading input\"))\n            .expect(\"Parse error\");\n\n        let program = bytecode::compile(&ast)\n            .expect(\"Compiler error\");\n\n        evaluate_with_memory_config(&program, self.heap_size, self.heap_log.clone())\n            .expect(\"Interpreter error\")\n    }",
+            "        let tree: AST = TopLevelParser::new()\n            .parse(&source.into_string()\n            .expect(\"Error reading input\"))\n            .expect(\"Parse error\");\n\n        let prog = bytecode::compile(&tree)\n            .expect(\"Compiler error\");\n\n        evaluate_with_memory_config(&prog, self.heap_size, self.heap_log.clone())\n            .expect(\"Interpreter error\")\n    }")]),
+    dict(id="B19", props=["C05", "C10", "C15", "C01"], what="rename eval_literal's and eval_print's parameters", edits=[
+        (I, "pub fn eval_literal(program: &Program, state: &mut State, index: &ConstantPoolIndex) -> Result<()> {\n    let program_object = program.constant_pool.get(index)?;",
+            "pub fn eval_literal(program: &Program, state: &mut State, constant: &ConstantPoolIndex) -> Result<()> {\n    let program_object = program.constant_pool.get(constant)?;"),
+        (I, "pub fn eval_print<W>(program: &Program, state: &mut State, output: &mut W, index: &ConstantPoolIndex, arguments: &Arity) -> Result<()> where W: Write {\n    let program_object = program.constant_pool.get(index)?;\n    let format = program_object.as_str()?;\n    let mut argument_pointers = state.operand_stack.pop_reverse_sequence(arguments.to_usize())?;",
+            "pub fn eval_print<W>(program: &Program, state: &mut State, sink: &mut W, format_index: &ConstantPoolIndex, arity: &Arity) -> Result<()> where W: Write {\n    let program_object = program.constant_pool.get(format_index)?;\n    let format = program_object.as_str()?;\n    let mut argument_pointers = state.operand_stack.pop_reverse_sequence(arity.to_usize())?;"),
+        (I, "    output.write_str(buffer.as_str())?;", "    sink.write_str(buffer.as_str())?;")]),
+    dict(id="B20", props=["C09", "C05", "C01"], what="integer division through a helper that keeps the plain operator", edits=[
+        (I, '("/",  Pointer::Integer(argument)) => Pointer::from(receiver /  argument),', '("/",  Pointer::Integer(argument)) => Pointer::from(quotient(*receiver, *argument)),'),
+        (I, "fn dispatch_boolean_method(", "fn quotient(a: i32, b: i32) -> i32 { a / b }\n\nfn dispatch_boolean_method(")]),
+    dict(id="B21", props=["C12", "C02", "C01", "C11"], what="has_local via any()", edits=[
+        (C, "        for scope in self.scopes.iter().rev() {\n            if self.locals.contains_key(&(*scope, id.to_string())) {\n                return true;\n            }\n        }\n        return false;",
+            "        self.scopes.iter().rev().any(|scope| self.locals.contains_key(&(*scope, id.to_string())))")]),
+    dict(id="B22", props=["C10", "C16", "C14", "C05"], what="eval_array builds the vector with vec![..; n]", edits=[
+        (I, "    let elements = repeat(initializer).take(n as usize).collect();", "    let elements = vec![initializer; n as usize];")]),
+]
